@@ -155,3 +155,33 @@ Example C02_reuse_sequence_nonvacuous :
      Ok ([0; 2; 1; 3], [-2; -2; 0; 1]%Z, [[2; 1; 0; 3]; [0; 3; 2; 1]]);
      Ok ([3; 0; 4; 2; 5; 1], [3; 4; 4; -2; -3; 4]%Z, [[0; 5; 4; 3; 2; 1]; [3; 2; 1; 0; 5; 4]])].
 Proof. vm_compute. repeat split. Qed.
+
+(* Non-vacuity of the stale-path argument: a cubic graph on 10 vertices (graph6 IKOeKO[KO) for which the code
+   (instrumented clone, also in a fresh call) evaluates ints.HasPrefix(firstLeafPath, path[:len(path)-1])
+   with len(path)-1 greater than the length of the recorded leaf, i.e. reads the stale tail, and finds a
+   stale entry equal to the live one.  Storages whose arrays are all 0, all 1, or 0/1/2 junk give the
+   result of the fresh call. *)
+Definition ex_cubic : graph :=
+  [[false;false;false;true;false;false;true;true;false;false];
+   [false;false;true;false;true;false;true;false;false;false];
+   [false;true;false;false;false;true;false;false;false;true];
+   [true;false;false;false;false;false;false;false;true;true];
+   [false;true;false;false;false;false;false;true;true;false];
+   [false;false;true;false;false;false;true;false;true;false];
+   [true;true;false;false;false;true;false;false;false;false];
+   [true;false;false;false;true;false;false;false;false;true];
+   [false;false;false;true;true;true;false;false;false;false];
+   [false;false;true;true;false;false;false;true;false;false]].
+Definition ex_fill (f : nat -> nat) : storage :=
+  let a k := map f (seq 0 k) in
+  let z k : dset := map (fun i => Z.of_nat (f i)) (seq 0 k) in
+  mkSt (a 12) (a 12) (repeat (a 11) 11) (a 50) (a 12) (a 12) (a 12) (z 12) (a 50) (a 12) (z 12) (a 12)
+       (a 12) (repeat (1, 1) 12) (a 12) (a 12) (a 12) (a 12).
+
+Example C02_reuse_stale_path_nonvacuous :
+  simpleb ex_cubic = true /\
+  res_map fst (canon_alloc 200 (ex_fill (fun _ => 0)) ex_cubic None) = canon_search 200 ex_cubic None /\
+  res_map fst (canon_alloc 200 (ex_fill (fun _ => 1)) ex_cubic None) = canon_search 200 ex_cubic None /\
+  res_map fst (canon_alloc 200 (ex_fill (fun i => Nat.modulo (i * 5 + 1) 3)) ex_cubic None) = canon_search 200 ex_cubic None /\
+  match canon_search 200 ex_cubic None with Ok (p, o, gs) => length gs = 3 | _ => False end.
+Proof. vm_compute. repeat split. Qed.
